@@ -262,4 +262,55 @@ def replay_witness(unit_name, case, ob):
             del RNDr.healpy
         else:
             RNDr.healpy = old
-    return {"reproduced": bool(fails), "failed": fails, "note": "real BoxRandoms/RandomReader, HealPixRandoms with stubbed healpy"}
+    # catalogs built from a generator hold exactly the requested number of points, inside the window, for 1 and 2 workers
+    import os
+    import shutil
+    import tempfile
+    import yaw
+    tmp = tempfile.mkdtemp(prefix="c16bounded")
+    old_env = os.environ.get("YAW_NUM_THREADS")
+    try:
+        centres = yaw.AngularCoordinates(np.deg2rad([[15.0, 0.0], [25.0, 20.0]]))
+        for nw in (1, 2):
+            os.environ["YAW_NUM_THREADS"] = str(nw)
+            for n in (999, 2500):
+                gen = RNDr.BoxRandoms(10, 30, -20, 40, weights=wsrc, redshifts=zsrc, seed=5)
+                try:
+                    cat = yaw.Catalog.from_random(f"{tmp}/r{nw}_{n}", gen, n, patch_centers=centres, chunksize=1000, max_workers=nw, overwrite=True)
+                    total = int(sum(cat.get_num_records()))
+                except Exception as ex:  # noqa: BLE001
+                    fails.append(f"from_random({n} points, {nw} worker(s)) raised {type(ex).__name__}: {ex}")
+                    continue
+                if total != n:
+                    fails.append(f"from_random: catalog holds {total} points instead of {n} ({nw} worker(s), chunksize 1000)")
+    finally:
+        if old_env is None:
+            os.environ.pop("YAW_NUM_THREADS", None)
+        else:
+            os.environ["YAW_NUM_THREADS"] = old_env
+        shutil.rmtree(tmp, ignore_errors=True)
+    return {"reproduced": bool(fails), "failed": fails, "note": "real BoxRandoms/RandomReader/Catalog.from_random, HealPixRandoms with stubbed healpy"}
+
+
+def bounded(opts):
+    import time
+    t0 = time.time()
+    r = replay_witness(None, {}, {})
+    return dict(kind="bounded", bound="real BoxRandoms through RandomReader for (n, chunksize) in (1000,300), (900,300), (300,300), (7,100): size, window, joint "
+                "(weight, redshift) rows, identical second pass after other use; HealPixRandoms with a stubbed healpy: same seed, same points; "
+                "Catalog.from_random for 999 and 2500 points with chunks of 1000 and 1 / 2 workers: exactly the requested number of points",
+                evaluations=4 * 3 + 1 + 1 + 4, distinct_nontrivial=4 * 3 + 1 + 1 + 4, violations=[dict(id="bounded:randoms", detail=f) for f in r["failed"]][:8],
+                samples=["BoxRandoms(10, 30, -20, 40, seed=77)"], wall_s=round(time.time() - t0, 2), note="real library; labelled bounded, not counted as proved")
+
+
+# "exactly the requested number of points" for a catalog built from a generator also depends on the creation pipeline writing
+# every chunk of the random reader: the C09 / C02 units on write_patches (multiprocessing and sequential), run here as well
+def _register_shared():
+    from . import C09 as _C09
+    from . import C02 as _C02
+    unit(P, "write_patches.multiprocessing", fuc=["yaw.catalog.catalog:write_patches"])(_C09.u_mp)
+    unit(P, "write_patches.parts", fuc=["yaw.catalog.catalog:write_patches"], trusted=["np.array_split", "Pool.map"])(_C02.u_write_patches)
+    unit(P, "write_patches_unthreaded", fuc=["yaw.catalog.catalog:write_patches_unthreaded"])(_C09.u_unthreaded)
+
+
+# _register_shared() is called by the driver after this module is fully imported (no import cycles)
